@@ -146,8 +146,8 @@ def n3_complement(ctx) -> None:
             for a in walk_local(lp0):
                 if isinstance(a, ast.AugAssign) and isinstance(a.target, ast.Subscript) and isinstance(a.op, ast.Add) and norm(a.value) == v0 \
                         and norm(D.expanded(f, a.target.slice)) == f"self._parent_param_map({p0})":
-                    gs = [norm(t) for t, _p in C.guards(f, a, within=lp0)]
-                    if all(g in (v0, f"{v0} != 0", f"{v0} > 0") for g in gs):
+                    # the only thing that may keep a value out is its being zero
+                    if C.runs_under(f, a, {v0: True, f"{v0} != 0": True, f"{v0} > 0": True}, within=lp0) is True:
                         res = norm(a.target.value)
     if res is not None:
         ctx.ok("N3", "complement: starts from the original parent's terms at n, mapped to the flipped child's names")
